@@ -383,3 +383,117 @@ Theorem C17_bitfield_bfm_raw : forall size immr imms, size_ok size -> 0 <= immr 
   end.
 Proof. exact bfm_raw_spec. Qed.
 Print Assumptions C17_bitfield_bfm_raw.
+
+(* ---------------------------------------------------------------------------------------------------------------- *)
+(* round 4 *)
+From Verif Require Import Codec.BfmSemModel Codec.BfmSemProofs Codec.X86ImmModel Codec.X86ImmProofs.
+
+(* the prose form of UBFM used above IS the ARM ARM pseudo-code (DecodeBitMasks(N, imms, immr, FALSE), ROR, wmask, tmask) *)
+Theorem C17_ubfm_pseudocode : forall size r s src, size_ok size -> 0 <= r < size -> 0 <= s < size -> 0 <= src < 2 ^ size ->
+  ubfm_pc size r s src = Some (ubfm_sem size r s src).
+Proof. exact ubfm_pc_is_sem. Qed.
+Print Assumptions C17_ubfm_pseudocode.
+
+Theorem C17_bfm_masks : forall size immr imms, size_ok size -> 0 <= immr < size -> 0 <= imms < size ->
+  decode_bit_masks_f size (immN_of size) imms immr =
+  Some (ror_n size (ones (imms + 1)) immr, ones ((imms - immr) mod size + 1)).
+Proof. exact masks_spec. Qed.
+Print Assumptions C17_bfm_masks.
+
+(* SBFM / BFM pseudo-code, bit by bit, for every field pair and every register content *)
+Theorem C17_sbfm_bits : forall size r s src, size_ok size -> 0 <= r < size -> 0 <= s < size -> 0 <= src < 2 ^ size ->
+  exists v, sbfm_pc size r s src = Some v /\ 0 <= v < 2 ^ size /\
+    forall i, 0 <= i < size ->
+      Z.testbit v i = if i <? (s - r) mod size + 1
+                      then Z.testbit src ((i + r) mod size) && ((i + r) mod size <? s + 1)
+                      else Z.testbit src s.
+Proof. exact sbfm_pc_bits. Qed.
+Print Assumptions C17_sbfm_bits.
+
+Theorem C17_bfm_bits : forall size r s dst src, size_ok size -> 0 <= r < size -> 0 <= s < size ->
+  0 <= dst < 2 ^ size -> 0 <= src < 2 ^ size ->
+  exists v, bfm_pc size r s dst src = Some v /\ 0 <= v < 2 ^ size /\
+    forall i, 0 <= i < size ->
+      Z.testbit v i = if (i <? (s - r) mod size + 1) && ((i + r) mod size <? s + 1)
+                      then Z.testbit src ((i + r) mod size) else Z.testbit dst i.
+Proof. exact bfm_pc_bits. Qed.
+Print Assumptions C17_bfm_bits.
+
+(* the signed and merging aliases with the fields the assembler computes: what the mnemonic says, bit by bit *)
+Theorem C17_bitfield_sbfx : forall size lsb width r s src, size_ok size -> 0 <= lsb -> 0 <= width -> 0 <= src < 2 ^ size ->
+  encode_bitfield Bfx size lsb width = Some (r, s) ->
+  exists v, sbfm_pc size r s src = Some v /\ 0 <= v < 2 ^ size /\
+    forall i, 0 <= i < size -> Z.testbit v i = Z.testbit src (if i <? width then i + lsb else lsb + width - 1).
+Proof. exact sbfx_correct. Qed.
+Print Assumptions C17_bitfield_sbfx.
+
+Theorem C17_bitfield_asr : forall size sh r s src, size_ok size -> 0 <= sh -> 0 <= src < 2 ^ size ->
+  encode_bitfield ShLsr size sh 0 = Some (r, s) ->
+  exists v, sbfm_pc size r s src = Some v /\ 0 <= v < 2 ^ size /\
+    forall i, 0 <= i < size -> Z.testbit v i = Z.testbit src (if i <? size - sh then i + sh else size - 1).
+Proof. exact asr_correct. Qed.
+Print Assumptions C17_bitfield_asr.
+
+Theorem C17_bitfield_sbfiz : forall size lsb width r s src, size_ok size -> 0 <= lsb -> 0 <= width -> 0 <= src < 2 ^ size ->
+  encode_bitfield Bfi size lsb width = Some (r, s) ->
+  exists v, sbfm_pc size r s src = Some v /\ 0 <= v < 2 ^ size /\
+    forall i, 0 <= i < size ->
+      Z.testbit v i = if i <? lsb then false else Z.testbit src (if i <? lsb + width then i - lsb else width - 1).
+Proof. exact sbfiz_correct. Qed.
+Print Assumptions C17_bitfield_sbfiz.
+
+Theorem C17_bitfield_bfxil : forall size lsb width r s dst src, size_ok size -> 0 <= lsb -> 0 <= width ->
+  0 <= dst < 2 ^ size -> 0 <= src < 2 ^ size ->
+  encode_bitfield Bfx size lsb width = Some (r, s) ->
+  exists v, bfm_pc size r s dst src = Some v /\ 0 <= v < 2 ^ size /\
+    forall i, 0 <= i < size -> Z.testbit v i = if i <? width then Z.testbit src (i + lsb) else Z.testbit dst i.
+Proof. exact bfxil_correct. Qed.
+Print Assumptions C17_bitfield_bfxil.
+
+Theorem C17_bitfield_bfi : forall size lsb width r s dst src, size_ok size -> 0 <= lsb -> 0 <= width ->
+  0 <= dst < 2 ^ size -> 0 <= src < 2 ^ size ->
+  encode_bitfield Bfi size lsb width = Some (r, s) ->
+  exists v, bfm_pc size r s dst src = Some v /\ 0 <= v < 2 ^ size /\
+    forall i, 0 <= i < size ->
+      Z.testbit v i = if (lsb <=? i) && (i <? lsb + width) then Z.testbit src (i - lsb) else Z.testbit dst i.
+Proof. exact bfi_correct. Qed.
+Print Assumptions C17_bitfield_bfi.
+
+(* x86 ALU group (add/or/adc/sbb/and/sub/xor/cmp r/m, imm): whatever immediate form is chosen, the CPU reconstructs the
+   requested immediate modulo the operand size; 64-bit destinations accepted exactly for int32 (AND: also uint32 as a
+   32-bit operation) *)
+Theorem C17_x86_arith_reg_imm_exact : forall op size rb0 optsize longform imm e,
+  size_ok4 size -> i64 imm -> arith_reg_imm op size rb0 optsize longform imm = Some e ->
+  effective_imm e = imm mod 2 ^ (8 * ae_opsize e) /\
+  (size <> 8 -> ae_opsize e = size) /\
+  (size = 8 -> (ae_opsize e = 8 /\ - 2 ^ 31 <= imm < 2 ^ 31) \/ (ae_opsize e = 4 /\ op = 4 /\ 0 <= imm < 2 ^ 32)) /\
+  (ae_immsize e = 1 \/ ae_immsize e = Z.min (ae_opsize e) 4) /\
+  (longform = true -> ae_short e = false /\ ae_immsize e = Z.min (ae_opsize e) 4).
+Proof. exact arith_reg_imm_exact. Qed.
+Print Assumptions C17_x86_arith_reg_imm_exact.
+
+Theorem C17_x86_arith_reg_imm_refused_iff : forall op size rb0 optsize longform imm,
+  size_ok4 size -> i64 imm ->
+  (arith_reg_imm op size rb0 optsize longform imm = None <->
+   size = 8 /\ ~ (- 2 ^ 31 <= imm < 2 ^ 31) /\ ~ (op = 4 /\ 0 <= imm < 2 ^ 32)).
+Proof. exact arith_reg_imm_refused_iff. Qed.
+Print Assumptions C17_x86_arith_reg_imm_refused_iff.
+
+Theorem C17_x86_arith_mem_imm_exact : forall op mem_size longform imm e,
+  size_ok4 mem_size -> i64 imm -> arith_mem_imm true op mem_size longform imm = Some e ->
+  effective_imm e = imm mod 2 ^ (8 * mem_size) /\ ae_opsize e = mem_size /\
+  (mem_size = 8 -> - 2 ^ 31 <= imm < 2 ^ 31) /\ (ae_immsize e = 1 \/ ae_immsize e = Z.min mem_size 4).
+Proof. exact arith_mem_imm_exact. Qed.
+Print Assumptions C17_x86_arith_mem_imm_exact.
+
+Theorem C17_x86_arith_mem_imm_refused_iff : forall op mem_size longform imm,
+  size_ok4 mem_size -> i64 imm ->
+  (arith_mem_imm true op mem_size longform imm = None <-> mem_size = 8 /\ ~ (- 2 ^ 31 <= imm < 2 ^ 31)).
+Proof. exact arith_mem_imm_refused_iff. Qed.
+Print Assumptions C17_x86_arith_mem_imm_refused_iff.
+
+(* KNOWN FINDING: without the int32 test the (Mem, Imm) form truncates a 64-bit immediate *)
+Theorem C17_x86_arith_mem_imm_unchecked_refuted :
+  exists op imm e, i64 imm /\ arith_mem_imm false op 8 false imm = Some e /\ effective_imm e <> imm mod 2 ^ (8 * 8).
+Proof. exact arith_mem_imm_unchecked_refuted. Qed.
+Print Assumptions C17_x86_arith_mem_imm_unchecked_refuted.
